@@ -21,7 +21,8 @@ Mirrors, in the code's order:
   specificTypeAndRelation userset request: `specificType` first; `ReadUsersetTuples` + `buildIterator`
   ttu                     `GetDirectEdgeFromNodeForUserType`, `Read` with the user-type prefix filter, `buildIterator`
   buildIterator           contextual tuples (index by object, sorted by user, de-duplicated) concatenated before the
-                          stored ones; visited filter, then condition filter (skipped when the edge has no condition)
+                          stored ones; condition filter (skipped when the edge has no condition), then visited filter
+                          keyed by `tuple.user` (usersets) / `tuple.user#computed` (tuple-to-userset) — commit 1d97cee
 Unlike the default engine no tuple is validated against the model on read: the storage filters (object,
 relation, user type / prefix, condition names of the edge) are all there is.
 -/
@@ -78,10 +79,6 @@ structure World where
   req : Req
   /-- strategy forced through the planner: "default" | "weight2" | "recursive" -/
   strategy : String := "default"
-  /-- counterfactual repairs, used only by the driver's diagnosis: key tuple-to-userset children by
-  `object#relation`; let tuples dropped by the condition filter not claim their userset -/
-  fixTtuKey : Bool := false
-  fixMarkOrder : Bool := false
   deriving Inhabited
 
 /-- sub-problem: a `ResolveUnion` call -/
@@ -255,8 +252,7 @@ def usersetItems (w : World) (obj rel : String) (e : GEdge) : List (Item VNode) 
     e.conds.contains t.cond && userType t.user = toType && userRel t.user = toRel)
   ((ctx ++ st).map (fun t =>
     ({ key := t.user, cond := iterCond w e.conds t,
-       child := childNode w.graph (splitUserset t.user).1 (splitUserset t.user).2 } : Item VNode))).filter
-    (fun it => !(w.fixMarkOrder && it.cond = .ff))
+       child := childNode w.graph (splitUserset t.user).1 (splitUserset t.user).2 } : Item VNode)))
 
 /-- `GetDirectEdgeFromNodeForUserType(tupleset, subjectType)` -/
 def tuplesetEdge (g : Graph) (tupleset subjectType : String) : Option GEdge :=
@@ -272,10 +268,11 @@ def ttuItems (w : World) (obj : String) (e : GEdge) (ts : GEdge) : List (Item VN
   let st := w.stored.filter (fun t => t.obj = obj && t.rel = tsRel && t.user.startsWith (subjectType ++ ":") &&
     ts.conds.contains t.cond)
   ((ctx ++ st).map (fun t =>
-    ({ key := if w.fixTtuKey then (splitUserset t.user).1 ++ "#" ++ computed else t.user,
+    -- the visited key of a tuple-to-userset child: parent object + computed relation (commit 1d97cee; the parent
+    -- object alone before: finding V2-A)
+    ({ key := t.user ++ "#" ++ computed,
        cond := iterCond w ts.conds t,
-       child := some { obj := (splitUserset t.user).1, rel := computed, g := e.dst } } : Item VNode))).filter
-    (fun it => !(w.fixMarkOrder && it.cond = .ff))
+       child := some { obj := (splitUserset t.user).1, rel := computed, g := e.dst } } : Item VNode)))
 
 /-! ### ResolveEdge / ResolveRewrite / ResolveIntersection / ResolveExclusion -/
 
